@@ -42,6 +42,7 @@ type damage struct {
 	name   string
 	data   []byte // nil: delete
 	delete bool
+	extra  map[string][]byte // other blobs to add (a foreign object's leaves)
 }
 
 func flipBit(b []byte, i int) []byte {
@@ -119,6 +120,14 @@ func variants(c corruptCase, ref refine, orig []byte, allBytes bool, otherLeaf [
 		out = append(out, damage{name: "fliproot@63", data: flipBit(orig, len(orig)-1)})
 	case "dropkey":
 		out = append(out, damage{name: "dropkey", data: orig[:len(orig)-64]})
+	case "keepkeys":
+		out = append(out, damage{name: fmt.Sprintf("keepkeys%d", c.Arg), data: orig[:64*c.Arg]})
+	case "foreignroot":
+		// the valid root blob of another object
+		other := ref.bytesOf([]int{97, 98})
+		lk := treeKey(other, uint32(ref.Lambda), 0, 0, true)
+		rk := treeKey(lk[:], uint32(ref.Lambda), 1, 0, true)
+		out = append(out, damage{name: "foreignroot", data: append(append([]byte{}, lk[:]...), rk[:]...), extra: map[string][]byte{lk.String(): other}})
 	case "dropbyte":
 		out = append(out, damage{name: "dropbyte", data: orig[:len(orig)-1]})
 	}
@@ -209,6 +218,9 @@ func cafsCorrupt(args []string) error {
 				w.RawDelete("blob", tk.String())
 			} else {
 				w.RawSet("blob", tk.String(), d.data)
+			}
+			for k, b := range d.extra {
+				w.RawSet("blob", k, b)
 			}
 			real := c.Damaged && (d.delete || !bytes.Equal(d.data, orig))
 			what := "root"
